@@ -132,6 +132,25 @@ def conc_stage(res, hexe, mexe, tier, seed, replay_lines=None):
     return st, wins
 
 
+def retry_probe(res, hexe):
+    """informational: what the SDK's automatic re-send does after an applied-but-5xx write (see
+    Properties/C05.v C05_sdk_retry_refuted). Not a violation of the checked claim, whose
+    assumption list says 'one request per call'; reported as a candidate finding. If
+    known_findings.json carries a `known` C05 entry matching C05-sdk-retry-aba it is printed as
+    KNOWN-FINDING."""
+    rc, out, dt = L.run([hexe, "-mode=retry"], timeout=300)
+    lines = [l for l in out.split("\n") if l.startswith("probe_") and "|=>|" in l]
+    pr = {"rc": rc, "lines": [l[:400] for l in lines]}
+    aba = [l for l in lines if l.startswith("probe_retry_aba|") and l.split("|=>|")[1].startswith("NOT-linearizable")]
+    pr["by_value_backends_apply_twice_after_ABA"] = sorted(l.split("|")[1] for l in aba)
+    if aba:
+        for f in L.known_findings():
+            if f.get("property") == PROP and f.get("status") == "known" and f.get("match") == "C05-sdk-retry-aba":
+                if f["what"] not in res.known:
+                    res.known.append(f["what"])
+    return pr
+
+
 def main(tier, seed, replay):
     res = L.Result(PROP, tier, seed)
     ok, cov = L.proof_stage(res, PROP, PROP_V, thorough=(tier == "thorough"))
@@ -143,7 +162,7 @@ def main(tier, seed, replay):
     if mexe is None and ok:
         p = L.write_replay(PROP, "model_build.txt", mlog[-6000:])
         res.violation(p, "model extraction/build failed", no_input=True)
-    st, work, mlines, cst, wins = {}, [], [], {}, []
+    st, work, mlines, cst, wins, probe = {}, [], [], {}, [], {}
     ncross = 0
     if hexe and mexe:
         nseq, nops = (10, 40) if tier == "quick" else (70, 60)
@@ -164,6 +183,8 @@ def main(tier, seed, replay):
         ncross = D.vm_crosscheck(res, PROP, cases, "From SL Require Import Lock.Run.")
         if not replay or replay_wins:
             cst, wins = conc_stage(res, hexe, mexe, tier, seed, replay_wins if replay else None)
+        if not replay:
+            probe = retry_probe(res, hexe)
     if not ok and not res.violations:
         res.violation(getattr(res, "coq_failure", L.write_replay(PROP, "coq_failure.txt", "proof stage failed")),
                       "theorems of %s no longer check; differential run, monitors and the linearizability check of recorded histories found no failing input" % PROP_V, no_input=True)
@@ -202,6 +223,7 @@ def main(tier, seed, replay):
         "fetch_of_missing_log_answered_notfound": never_created,
         "value_distribution": values,
         "sqlite_concurrency": {k: cst.get(k) for k in ("config", "runs", "windows", "ops", "max_window", "window_sizes", "window_failures", "stats", "harness_wall_s")},
+        "sdk_retry_probe_candidate_finding": probe,
         "wire_observation": "Create sends the header bytes 'If-Match: ' (empty value, once); Replace sends the fetched ETag verbatim incl. quotes; GET carries Cache-Control: no-cache and X-Tigris-Cas: true; a nil Go slice reaches DynamoDB as {\"B\": null}",
         "trusted_base": TRUSTED + ["repo " + L.repo_rev()],
     })
